@@ -188,6 +188,7 @@ struct CrateObs
 struct FullObs
 {
     std::string uuid_token, version, directory;
+    std::string table_digest;  // C14 enumeration on 2.x: digest of everything the table API shows
     std::string tracks, crates, roots;  // id lists as returned
     std::vector<int64_t> tracks_v, crates_v, roots_v;
     bool tracks_ok = false, crates_ok = false, roots_ok = false;
@@ -392,6 +393,7 @@ struct World
     void check_purity_end(const char* what);
     void purity_extras();
     void table_read_all();  // table.cpp: every read accessor of the 2.x table API
+    std::string table_digest();
     void check_roundtrip(const dj::track_snapshot& written, dj::track& t,
                          const char* opname, bool is_create);
     bool field_rule(int field, const dj::track_snapshot& s, const dj::track_snapshot& r,
